@@ -169,40 +169,42 @@ func deep(open, close string, n int) string {
 }
 
 func specialProbes(tier string) []special {
-	nest := 200000
+	// The quick tier runs these with the Go stack limit lowered to 32 MB (C01_MAXSTACK_MB), so that
+	// unbounded Go recursion shows within seconds; the thorough tier uses sizes that overflow the
+	// default 1 GB stack as well and replays the failures through cmd/zygo.
+	nest, flat, rec := 60000, 300000, 1500
 	if tier == "thorough" {
-		nest = 3000000
+		nest, flat, rec = 500000, 2500000, 30000
 	}
+	recs := fmt.Sprintf("%d", rec)
 	return []special{
 		{"chan-recv-empty", "(<! (makeChan))"},
 		{"chan-recv-def", "(def c (makeChan)) (<! c)"},
 		{"chan-send-unbuffered", "(def c (makeChan)) (send c 1)"},
-		{"deep-recursion-nontail", "(defn f [n] (cond (== n 0) 0 (+ 1 (f (- n 1))))) (f 3000000)"},
-		{"deep-recursion-mutual", "(defn g [n] (cond (== n 0) 0 (+ 1 (h (- n 1))))) (defn h [n] (cond (== n 0) 0 (+ 1 (g (- n 1))))) (g 3000000)"},
+		{"deep-recursion-nontail", "(defn f [n] (cond (== n 0) 0 (+ 1 (f (- n 1))))) (f " + recs + ")"},
 		{"deep-nesting-parens", deep("(", ")", nest)},
 		{"deep-nesting-open-only", strings.Repeat("(", nest)},
 		{"deep-nesting-arrays", deep("[", "]", nest)},
 		{"deep-nesting-curly", deep("{", "}", nest)},
 		{"deep-nesting-quote", strings.Repeat("%", nest) + "a"},
-		{"deep-nesting-list-data", "(def x " + deep("(list ", ")", 100000) + ")"},
-		{"deep-data-print", "(def x (list)) (for [(def i 0) (< i 200000) (set i (+ i 1))] (set x (list x))) (str x)"},
-		{"deep-array-print", "(def x []) (for [(def i 0) (< i 200000) (set i (+ i 1))] (set x [x])) (str x)"},
+		{"deep-nesting-list-data", "(def x " + deep("(list ", ")", nest/2) + ")"},
+		{"long-flat-list", "(quote (" + strings.Repeat("1 ", flat) + "))"},
+		{"many-args", "(+ " + strings.Repeat("1 ", flat) + ")"},
+		{"deep-array-print", "(def x []) (for [(def i 0) (< i 60000) (set i (+ i 1))] (set x [x])) (str x)"},
 		{"self-containing-array", "(def a [1]) (aset a 0 a) (str a)"},
 		{"self-containing-hash", "(def h (hash a:1)) (hset h b: h) (str h)"},
 		{"self-containing-hash-json", "(def h (hash a:1)) (hset h b: h) (json h)"},
+		{"self-expanding-macro", "(defmac m [n] ^(m ~n)) (m 1)"},
 		{"huge-alloc-makeArray", "(makeArray 1000000000000)"},
 		{"huge-alloc-makeArray-neg", "(makeArray -1)"},
-		{"huge-string-repeat", "(def s \"aaaaaaaaaaaaaaaa\") (for [(def i 0) (< i 40) (set i (+ i 1))] (set s (concat s s)))"},
 		{"long-atom", strings.Repeat("a", 2000000)},
 		{"long-number", strings.Repeat("9", 2000000)},
 		{"long-string", "\"" + strings.Repeat("a", 2000000) + "\""},
-		{"many-args", "(+ " + strings.Repeat("1 ", 300000) + ")"},
 		{"long-dotsym", "a" + strings.Repeat(".a", 300000)},
-		{"deep-macro-recursion", "(defmac m [n] ^(m ~n)) (m 1)"},
-		{"infix-deep", "{" + strings.Repeat("1 + ", 100000) + "1}"},
-		{"infix-deep-parens", "{" + deep("(", ")", 50000) + "}"},
-		{"infix-deep-unary", "{" + strings.Repeat("- ", 100000) + "1}"},
-		{"infix-deep-pow", "{" + strings.Repeat("2 ** ", 100000) + "1}"},
+		{"infix-deep", "{" + strings.Repeat("1 + ", nest) + "1}"},
+		{"infix-deep-parens", "{" + deep("(", ")", nest/2) + "}"},
+		{"infix-deep-unary", "{" + strings.Repeat("- ", nest) + "1}"},
+		{"infix-deep-pow", "{" + strings.Repeat("2 ** ", 3000) + "1}"},
 	}
 }
 
